@@ -20,7 +20,9 @@ MIDS = ["m0", "m1", "m2", "x"]
 BIDS = ["b0", "b1", "x"]
 # every file form read_neuroml2_file accepts for an include of the document handed to the function
 FORMS = [".nml", ".xml", ".nml.h5", ".h5", ".hdf5"]
-PARSER_FORMS = (".nml", ".xml", ".nml.h5")  # ... and those the include loop of _read_neuroml2 accepts (NeuroMLXMLParser path)
+PARSER_FORMS = (".nml", ".xml", ".nml.h5")
+# how a cell object comes into being: bare object + attribute assignment, constructor keywords, component_factory, add
+HOWS = ["assign", "ctor", "factory", "add", "add_name"]  # ... and those the include loop of _read_neuroml2 accepts (NeuroMLXMLParser path)
 
 
 class Gen:
@@ -51,11 +53,11 @@ class Gen:
         for i in range(r.randint(0, 5)):
             self.v += 1
             cells.append({"list": "cells", "id": "c%d" % i, "rest": self.v, "m": self.slot(MIDS, dangling),
-                          "b": self.slot(BIDS, dangling)})
+                          "b": self.slot(BIDS, dangling), "how": r.choice(HOWS)})
         for i in range(r.randint(0, 2) if r.random() < 0.5 else 0):
             self.v += 1
             cells.append({"list": "cells2", "id": "k%d" % i, "rest": self.v, "m": self.slot(MIDS, dangling),
-                          "b": self.slot(BIDS, dangling)})
+                          "b": self.slot(BIDS, dangling), "how": r.choice(HOWS)})
         wide = r.random() < 0.6  # most documents define (nearly) everything somewhere
         morphs = [self.obj(MIDS) for _ in range(r.randint(0, 3))]
         bios = [self.obj(BIDS) for _ in range(r.randint(0, 2))]
@@ -170,7 +172,16 @@ def fixed_cases():
     out.append({"cells": [{"list": "cells", "id": "c0", "rest": 40, "m": {"attr": "x", "emb": None}, "b": {"attr": "x", "emb": None}}],
                 "morphs": [O("x", 41, [1]), O("x", 42, [2])], "bios": [O("x", 43, [3])],
                 "incs": [{"href": "inc0.nml", "morphs": [O("x", 44, [4])], "bios": [O("x", 45, [5]), O("x", 46, [6])], "missing": False}]})
-    # 4-8: the definitions live in an included file, one case per file form the loader accepts
+    # every way of building a cell x both classes x (both references | only morphology | only biophysics), all resolvable
+    cs = []
+    for hi, how in enumerate(HOWS):
+        for li, lst in enumerate(("cells", "cells2")):
+            for vi, (ma, ba) in enumerate((("m0", "b0"), ("m0", None), (None, "b0"))):
+                cs.append({"list": lst, "id": "%s%d%d" % ("c" if li == 0 else "k", hi, vi), "rest": 200 + 10 * hi + 3 * li + vi,
+                           "m": {"attr": ma, "emb": None}, "b": {"attr": ba, "emb": None}, "how": how})
+    out.append({"cells": [c for c in cs if c["list"] == "cells"] + [c for c in cs if c["list"] == "cells2"],
+                "morphs": [O("m0", 90, [1])], "bios": [O("b0", 91, [2, 3])], "incs": []})
+    # the definitions live in an included file, one case per file form the loader accepts
     for k, form in enumerate(FORMS):
         out.append({"cells": [{"list": "cells", "id": "c0", "rest": 50 + k, "m": {"attr": "m0", "emb": None}, "b": {"attr": "b0", "emb": None}},
                               {"list": "cells2", "id": "k0", "rest": 60 + k, "m": {"attr": "m0", "emb": None}, "b": {"attr": None, "emb": None}}],
@@ -392,7 +403,13 @@ def run(ck):
         c["via_parser"] = i < ck.n(80, 400) and all(f["href"].endswith(PARSER_FORMS) for f in c["incs"])
     results = []
     for i in range(0, len(cases), 500):
-        results += ck.impl("c17_impl.py", {"cases": cases[i:i + 500]}, timeout=1500)["results"]
+        got = ck.impl("c17_impl.py", {"cases": cases[i:i + 500], "ctor_probe": i == 0}, timeout=1500)
+        results += got["results"]
+        if i == 0:
+            pr = got["ctor_probe"]
+            ck.oblige("static:Cell2CaPools.__init__ forwards every parameter to the same-named Cell parameter",
+                      pr["parse_ok"] and not pr["mismatches"], json.dumps(pr)[:800], kind="instance")
+            ck.extra["ctor_forwarding_mismatches"] = pr["mismatches"]
     # ---- histories: several calls in ONE process, the included files rewritten between the calls; every call must behave as
     #      if it were the only one (the model's `load` is a function of the files at call time)
     hists = fixed_histories() + [g.history() for _ in range(ck.n(12, 120))]
